@@ -52,7 +52,7 @@ Proof.
                f_rle f2 = f_rle f /\ f_n32 f2 = false /\ f_order f2 = f_order f /\
                (f_cat f2 = false -> s1 <> [])).
   { unfold f2. destruct s1 as [|x r].
-    - cbn. repeat split; try congruence; try discriminate.
+    - cbn [force_cat f_order f_res f_n32 f_stripe f_nosize f_cat f_rle f_pack state_count]. repeat split; try congruence; try discriminate.
     - repeat split; try congruence; try (intros _; discriminate). }
   destruct H2 as [S2 [N2 [P2 [R2 [X2 [O2 L2]]]]]]. clearbody f2.
   assert (Hhead : forall body,
